@@ -114,6 +114,9 @@ func runHarness(ld *Loaded, spec HarnessSpec, tier string, workers int, twin boo
 			params[k] = v
 		}
 	}
+	for k, v := range cliParams {
+		params[k] = v
+	}
 	if twin {
 		params["__twin"] = 1
 	}
@@ -294,6 +297,11 @@ func runPath(i *Interp, h *ssa.Function) (end string) {
 			msg := panicMessage(r.v)
 			res, model := i.solver.CheckAll(i.pc)
 			if res != "unsat" {
+				if k := strings.Index(r.where, " <- "); k > 0 {
+					msg += " @ " + r.where[:k]
+				} else if r.where != "" {
+					msg += " @ " + r.where
+				}
 				i.violations = append(i.violations, Violation{Label: msg, Kind: "panic", Model: model, Where: r.where})
 			}
 			end = "panic"
@@ -354,6 +362,8 @@ func loadKnown() []KnownFinding {
 
 // ---------------------------------------------------------------------------------------
 // check command
+
+var cliParams map[string]int
 
 type checkOpts struct {
 	prop     string
@@ -757,6 +767,14 @@ func main() {
 			case "--workers":
 				k++
 				o.workers, _ = strconv.Atoi(args[k])
+			case "--param":
+				k++
+				kv := strings.SplitN(args[k], "=", 2)
+				n, _ := strconv.Atoi(kv[1])
+				if cliParams == nil {
+					cliParams = map[string]int{}
+				}
+				cliParams[kv[0]] = n
 			case "--no-replay":
 				o.noReplay = true
 			case "-v":
